@@ -479,7 +479,10 @@ CONSUMERS = [
     ("scalbln", "scalbln(1.5; $k)"),
     ("scalb", "scalb(1.5; $k)"),
     ("jn", 'if $n > -50 and $n < 50 then [jn($k; 0.5), yn($k; 0.5)] else "SKIP" end'),
-    ("frexp-etc", "$k | [sqrt, fabs, trunc, floor, round, ceil, abs, length, significand, logb]"),
+    ("float-math", "$k | [sqrt, fabs, trunc, significand, logb]"),
+    ("round", "$k | [floor, round, ceil]"),
+    ("abs", "$k | abs"),
+    ("length", "$k | length"),
     ("compare", "[$k < 3, $k <= 3, $k == 3, $k != 3, $k > -1, $k >= $n, $k == $n, $k < $n, $k == 3.0, $k < 2.5, "
                 "[$k] == [$n], [$k, 1] < [$n, 2], {a: $k} == {a: $n}]"),
     ("compare-float", "[$k == ($n + 0.0), $k < ($n + 0.5), $k > ($n - 0.5)]"),
@@ -588,31 +591,40 @@ def repr_equal(wa, wb):
 
 
 def repr_single(c, n, profile, out):
-    """a batch failed (panic): evaluate every consumer alone for this n"""
+    """a batch failed (panic): evaluate every consumer alone for this n, one representation at a time. A panic
+    that happens for all three representations alike does not refute *this* property (it is C05's business)
+    and is counted as inconclusive; a panic / different result for only some of them is a violation."""
+    forms = [("machine int", "$n"), ("injected bigint", "$N"), ("n+2^70-2^70", "($n + $big - $big)")]
     for name, filt in CONSUMERS:
-        prog = "($n + $big - $big) as $c | [($n, $N, $c) as $k | (try [%s] catch \"ERR\")]" % filt
-        r = c.eval(prog, [{"input": None}], vars=[("n", enc(n)), ("N", enc(Big(n))), ("big", enc(BIG))], take=2)
-        res = r["results"][0]
-        out["ops"] += 3
-        if res.get("panic"):
-            msg = res["panic"].get("msg", "")
-            if is_resource(msg):
+        seen = []
+        for _fname, form in forms:
+            prog = "%s as $k | (try [%s] catch \"ERR\")" % (form, filt)
+            r = c.eval(prog, [{"input": None}], vars=[("n", enc(n)), ("N", enc(Big(n))), ("big", enc(BIG))], take=2)
+            res = r["results"][0]
+            out["ops"] += 1
+            if res.get("panic"):
+                seen.append(("panic", res["panic"].get("loc", "?"), res["panic"].get("msg", "")))
+            elif res["end"][0] != "end" or len(res["outs"]) != 1:
+                seen.append(("incomplete", str(res["end"])))
+            else:
+                seen.append(("ok", res["outs"][0][0]))
+        out["consumers"][name] = out["consumers"].get(name, 0) + 1
+        if all(s[0] == "panic" for s in seen):
+            if all(is_resource(s[2]) for s in seen):
                 out["inconc"].append("resource-exhaustion")
             else:
-                out["viol"].append(("panic:repr:%s" % name, {"kind": "repr", "consumer": name, "filter": filt,
-                                                             "n": str(n), "panic": res["panic"], "profile": profile}))
+                out["inconc"].append("panic-for-every-representation:%s:%s" % (name, seen[0][1]))
+                out["notes"].append({"consumer": filt, "n": str(n), "panic": seen[0][1:], "profile": profile,
+                                     "note": "same panic for all three representations: not a refutation of C09"})
             continue
-        if res["end"][0] != "end" or len(res["outs"]) != 1:
-            out["viol"].append(("repr:incomplete:%s" % name, {"kind": "repr", "consumer": name, "filter": filt,
-                                                              "n": str(n), "end": res["end"], "profile": profile}))
-            continue
-        ra, rb, rc = res["outs"][0][0]
-        out["consumers"][name] = out["consumers"].get(name, 0) + 1
-        if not (repr_equal(ra, rb) and repr_equal(ra, rc)):
+        agree = all(s[0] == "ok" for s in seen) and repr_equal(seen[0][1], seen[1][1]) and repr_equal(seen[0][1], seen[2][1])
+        if not agree:
+            def sh(s_):
+                return show(dec(s_[1])) if s_[0] == "ok" else "%s %s" % (s_[0], " ".join(map(str, s_[1:])))
             out["viol"].append(("repr:%s" % name,
                                 {"kind": "repr", "consumer": name, "filter": filt, "n": str(n),
-                                 "with machine int": show(dec(ra)), "with injected bigint": show(dec(rb)),
-                                 "with n+2^70-2^70": show(dec(rc)), "profile": profile}))
+                                 "with machine int": sh(seen[0]), "with injected bigint": sh(seen[1]),
+                                 "with n+2^70-2^70": sh(seen[2]), "profile": profile}))
 
 
 def check_repr_big(c, profile, out):
@@ -663,7 +675,8 @@ def run_cli(binary, prog, home):
 def check_halt(out):
     codes = [0, 1, 5, 42, 127, 128, 255, 256, -1, 2 ** 31 - 1, 2 ** 31]
     with tempfile.TemporaryDirectory(prefix="c09-") as home:
-        for which, binary in (("debug", build.cli()), ("release", build.cli_release())):
+        for which, binary in (("debug", PATHS.get("cli") or build.cli()),
+                              ("release", PATHS.get("cli_release") or build.cli_release())):
             for n in codes:
                 lit = run_cli(binary, "halt(%d)" % n, home)
                 comp = run_cli(binary, "halt(%d + %d - %d)" % (n, BIG, BIG), home)
@@ -683,9 +696,17 @@ def check_halt(out):
 
 # ---------------------------------------------------------------------------------------
 
+PATHS = {}
+
+
+def client(profile):
+    return par.client(profile, path=PATHS.get(profile))
+
+
 def new_out(seed_str):
     return {"viol": [], "inconc": [], "ops": 0, "nontrivial": 0, "unspec": 0, "distinct": set(), "samples": [],
-            "eq_cases": {}, "consumers": {}, "repr_distinct": 0, "halt_runs": 0, "rng": random.Random(seed_str)}
+            "eq_cases": {}, "consumers": {}, "repr_distinct": 0, "halt_runs": 0, "notes": [],
+            "rng": random.Random(seed_str)}
 
 
 def task(t):
@@ -696,7 +717,7 @@ def task(t):
         if kind == "halt":
             check_halt(out)
         else:
-            c = par.client(profile)
+            c = client(profile)
             if kind in ("ints", "all", "rand"):
                 check_num(c, num_pool(kind, rng), profile, out)
             elif kind == "mixed":
@@ -712,8 +733,17 @@ def task(t):
     return out
 
 
+def prebuild():
+    """build everything once in the parent; the forked workers inherit the paths"""
+    for p in ("verif", "release"):
+        PATHS[p] = build.jaqmon(p)
+    PATHS["cli"] = build.cli()
+    PATHS["cli_release"] = build.cli_release()
+
+
 def replay(run):
     import json
+    prebuild()
     w = json.load(open(run.replay))["witness"]
     out = new_out("replay")
     kind = w.get("kind")
@@ -721,7 +751,7 @@ def replay(run):
     if kind == "halt":
         check_halt(out)
     else:
-        c = par.client(profile)
+        c = client(profile)
         if kind in ("arith", "neg", "join"):
             x, y = dec(w["x_wire"]), dec(w.get("y_wire"))
             x = Big(x) if wire_tag(w["x_wire"]) == "I" and isinstance(x, int) else x
@@ -746,6 +776,7 @@ def main():
     run = Run("C09")
     if run.replay:
         return replay(run)
+    prebuild()
     tasks = []
     n_all = run.size(2, 60)
     n_rand = run.size(1, 60)
@@ -769,6 +800,7 @@ def main():
             run.violation(key, w)
         for cls in out["inconc"]:
             run.inconc(cls)
+        run.notes.extend(out["notes"])
         ops += out["ops"]
         nontrivial += out["nontrivial"]
         unspec += out["unspec"]
